@@ -177,6 +177,24 @@ def run(rep):
         rep.check('R11.b', fkey(ad, s), ok, 'runs strictly before the first mutation of self.routes' if ok else
                   'a call that can fail at bind time (%s) can run after self.routes was already modified: a failing add() leaves '
                   'a partially updated routing table' % short(s), app, s)
+    # "precedes" must mean *finished*: the bound routes are a materialised list, not a lazy iterator whose
+    # bind() calls run interleaved with the insertions
+    for q in ('SubApplication.bind_all',):
+        bf = app.func(q)
+        lazy = [n for n in walk_body(bf.node) if isinstance(n, (ast.Yield, ast.YieldFrom))]
+        rets_ = returns_of(bf)
+        gens = [r for r in rets_ if isinstance(r.value, (ast.GeneratorExp,)) or
+                (isinstance(r.value, ast.Call) and call_name(r.value) in ('map', 'iter', 'filter', 'zip'))]
+        rep.check('R11.b', fkey(bf, 'returns a finished list'), not lazy and not gens and bool(rets_),
+                  'all re-bound routes exist before bind_all returns (no generator / lazy iterator)' if not lazy and not gens and rets_ else
+                  'bind_all is lazy (generator / iterator): routes are bound one by one while add() is already inserting, so a failing '
+                  'k-th route leaves routes 1..k-1 in the table', app, (lazy or gens or [bf.node])[0])
+    srcs = [s for s in stmts_of(ad.node) if isinstance(s, ast.Assign) and any(isinstance(l, ast.For) and norm(l.iter) == norm(s.targets[0]) and
+                                                                              any(i in l.body for i in ins) for l in stmts_of(ad.node))]
+    ok = bool(srcs) and all((isinstance(s.value, ast.Call) and call_tail(s.value) == 'bind_all') or isinstance(s.value, ast.List) or
+                            (isinstance(s.value, ast.Call) and call_name(s.value) == 'list') for s in srcs)
+    rep.check('R11.b', fkey(ad, 'iterates a finished list'), ok, 'the insertion loop walks an already complete list of bound routes' if ok else
+              'the insertion loop does not iterate a complete list of bound routes', app, srcs[0] if srcs else ad.node)
     after = cfg.reach(cfg.nodes_of_all(ins), normal_only=True)
     bad = []
     for n in after:
